@@ -243,6 +243,20 @@ static std::string run(const std::vector<std::string>& a) {
         if (a[1] == "sha256") { hmac_hash::SHA256 c; c.init(); for (unsigned long long i = 0; i < n; i += chunk.size()) c.update(chunk.data(), (size_t)std::min<unsigned long long>(chunk.size(), n - i)); uint8_t d[32]; c.finish(d); return hx(d, 32); }
         hmac_hash::SHA512 c; c.init(); for (unsigned long long i = 0; i < n; i += chunk.size()) c.update(chunk.data(), (size_t)std::min<unsigned long long>(chunk.size(), n - i)); uint8_t d[64]; c.finish(d); return hx(d, 64);
     }
+    if (op == "hmachuge") {  // hmachuge <t> <nbytes>: a KEY of more than 2^32 bytes (zero pages, a few non-zero bytes at both ends). A key longer than a block is
+                             // replaced by its digest (RFC 2104): the MAC must equal the MAC under that digest, computed here with a 16 MiB-chunked context
+        size_t n = (size_t)strtoull(a[2].c_str(), 0, 10); uint8_t* z = (uint8_t*)calloc(n ? n : 1, 1); if (!z) return "HARNESS-no-memory";
+        for (size_t i = 0; i < 23 && i < n; ++i) { z[i] = (uint8_t)(0x21 + i); z[n - 1 - i] = (uint8_t)(0xC3 ^ i); }
+        TypeHash ty = type_of(a[1]); const size_t piece = (size_t)16 << 20; Bytes msg(37, 0x6D), kd;
+        if (a[1] == "sha1") { hmac_hash::SHA1 c; c.init(); for (size_t i = 0; i < n; i += piece) c.update(z + i, std::min(piece, n - i)); kd.resize(20); c.finish(kd.data()); }
+        else if (a[1] == "sha256") { hmac_hash::SHA256 c; c.init(); for (size_t i = 0; i < n; i += piece) c.update(z + i, std::min(piece, n - i)); kd.resize(32); c.finish(kd.data()); }
+        else { hmac_hash::SHA512 c; c.init(); for (size_t i = 0; i < n; i += piece) c.update(z + i, std::min(piece, n - i)); kd.resize(64); c.finish(kd.data()); }
+        std::string direct = hx(get_hmac(z, n, msg.data(), msg.size(), ty)), via_digest = hx(get_hmac(kd.data(), kd.size(), msg.data(), msg.size(), ty));
+        std::string streamed = via_digest;
+        if (a.size() > 3 && a[3] == "1") { HmacContext hc(ty); hc.init(z, n); hc.update(msg.data(), msg.size()); uint8_t o[64]; hc.final(o, 64); streamed = hx(o, kd.size()); }
+        free(z);
+        return (direct == via_digest && streamed == via_digest) ? "agree" : "DISAGREE one-shot=" + direct + " streaming=" + streamed + " under-the-key-digest=" + via_digest;
+    }
     if (op == "shahuge") {  // shahuge <t> <nbytes> <full>: ONE update call carrying nbytes zero bytes (one-shot form) vs the same bytes streamed in 16 MiB updates;
                             // full = 1 adds get_hash(ptr, n) and a 37-byte update followed by one update with the rest
         size_t n = (size_t)strtoull(a[2].c_str(), 0, 10); bool full = a.size() > 3 && a[3] == "1"; uint8_t* z = (uint8_t*)calloc(n ? n : 1, 1);     // untouched zero pages: no resident memory
